@@ -441,7 +441,7 @@ Qed.
 
 Lemma release_keeps_other : forall c l x, In x l -> held_by c x = false -> In x (release c l).
 Proof.
-  intros. unfold release. apply in_or_app. right. apply filter_In. split; auto. rewrite H0. reflexivity.
+  intros. unfold release. apply in_or_app. left. apply filter_In. split; auto. rewrite H0. reflexivity.
 Qed.
 
 (** In-flight work: a step that is not the client's own leaves the client, its clone and the server it holds alone. *)
@@ -504,7 +504,7 @@ Proof.
   intros w c x s srv L Hh Hin Hs. unfold step. cbn [step0]. rewrite L, Hh. eexists. split; [reflexivity|].
   rewrite gc_clients. cbn [clients]. rewrite cl_lookup_set_same. split; auto.
   intros Hp. cbn. apply filter_In. split.
-  - unfold release. apply in_or_app. left. apply in_map_iff. exists srv. split; auto. apply filter_In. split; auto.
+  - unfold release. apply in_or_app. right. apply in_map_iff. exists srv. split; auto. apply filter_In. split; auto.
     unfold held_by. rewrite Hs. apply Nat.eqb_refl.
   - cbn [spool]. apply orb_true_iff. left. unfold alive. apply orb_true_iff. right. apply existsb_exists.
     eexists. split; [left; reflexivity|]. cbn. rewrite Hp. apply Nat.eqb_refl.
@@ -856,7 +856,6 @@ End WithHash.
 
 (** ------------------------------------------------------------------ F12 witness (hash = identity) *)
 
-Definition idh (x : pdef) : hash := x.
 Definition f12_old : cfg := {| cgen := 1; cpools := [(0, (10, [0]))] |}.
 Definition f12_new : cfg := {| cgen := 1; cpools := [(0, (11, [0]))] |}.
 (** start with f12_old; a client of (0,0) connects; the file becomes f12_new while the build of pool (0,0)
